@@ -107,18 +107,21 @@ P = {
    technique="Coq proof (iteration-state invariant, permutation lemmas, conversion table) + extracted-model correspondence through the public API",
    design_ref="5/C09"),
  "C14": dict(claimed=True,
-   text="Coq theorems over Col26.v/Ptg.v: bijective base-26 letters (injective, inverse) for every column, push_column = letters for all "
-        "col < 2^32, push_cell_ref puts $ exactly on absolute components, A1 round trip with the exact no-overflow bound, and "
-        "C14_rpn_correct_xls / _xlsb: for every well-formed formula AST (all reference kinds x 4 flag combinations, 3-D, names, "
-        "literals, unary/binary operators, parentheses, fixed- and variable-arity functions, AttrSum) outside the known classes "
-        "parse_formula (frame (encode e)) = Ok (render e), by stack-machine induction with exact fuel; formula_positions via "
-        "from_sparse_spec. FTAB/FTAB_ARGC are regenerated from src/utils.rs on every run (tools/gen_tables.py) and proved equal to a "
-        "frozen reference copy (regression pin). Known classes K_STR_WIDE (F21), K_STR_QUOTE with vm_compute refutations. "
-        "Tie: hooks push_column / both parse_formula / xlsx A1 helpers (exhaustive column sweep, random ASTs, malformed rgce with "
-        "panic prediction) and generated .xls files through worksheet_formula.",
-   note=TB + " f64 display is a Section variable; xlsx/ods stored-text formulas and xlsb record-level positions are tied end to end only; "
-        "parse_defined_names (xls) is not modelled. Table translator: tools/gen_tables.py (fail-closed regex extraction).",
-   technique="Coq proof (stack-machine induction, base-26 arithmetic) + regenerated tables + extracted-model correspondence",
+   text="Coq theorems over Col26.v/Ptg.v/FormulaEnv.v: bijective base-26 letters (injective, inverse) for every column, push_column = "
+        "letters for all col < 2^32, push_cell_ref puts $ exactly on absolute components, A1 round trip through the hardened "
+        "scanner; C14_rpn_correct_xls / _xlsb: for every well-formed formula AST (all reference kinds x 4 flag combinations, 3-D, "
+        "names, literals, unary/binary operators, parentheses, fixed- and variable-arity functions, AttrSum) outside the known "
+        "classes parse_formula (frame (encode e)) = Ok (render e), by stack-machine induction; the decoders' environment: "
+        "C14_name_index_stable(_xls), C14_defined_names_in_order(_xls) (every BrtName / Lbl record keeps its index and is reported "
+        "in record order whatever its flags), C14_ptgname_is_ith_record_*, C14_sheet3d_through_xti_*; formula_positions and "
+        "C14_stored_text_positions via from_sparse_spec. FTAB/FTAB_ARGC are regenerated from src/utils.rs on every run "
+        "(tools/gen_tables.py) and proved equal to a frozen reference copy (regression pin). Totality: "
+        "C14_no_panic_parse_formula_xls/_xlsb (every byte string), C14_no_panic_xlsb_read_names / _xls_read_names, C14_no_panic_a1. "
+        "Known classes K_PTGEXP (shared / array formula members read as \"\") and K_XLS_NAME_FORMULA with refutations. Tie: hooks "
+        "push_column / both parse_formula / A1 helpers (exhaustive column sweep, random ASTs, malformed rgce with outcome "
+        "prediction) and generated .xlsb, .xls, .xlsx and .ods files through worksheet_formula on every sheet and defined_names.",
+   note=TB + " f64 display is a Section variable; <> OutOfFuel for the two decoders on arbitrary input is not proved. Table translator: tools/gen_tables.py (fail-closed regex extraction).",
+   technique="Coq proof (stack-machine induction, base-26 arithmetic, record-list induction for the name tables) + regenerated tables + extracted-model correspondence",
    design_ref="5/C14"),
  "C18": dict(claimed=True,
    text="Coq theorems over Ovba.v/OvbaDir.v: C18_decompress_inverts_encode — for every list of valid chunks (raw chunks; any mixture of "
@@ -318,10 +321,10 @@ def main():
 
 # properties whose model is being brought up to date with fix: commits that just landed in /repo (their check
 # reports the stale model as a broken correspondence until the resync is merged); emptied as the resyncs land
-STALE = {"C02", "C03", "C14"}
-STALE_REASON = ("temporarily not claimed: the model is being resynchronised with the C06 hardening fix: commits (Panic -> Err at "
-                "file-declared lengths / indices / offsets); until that is merged the check reports the stale model as a broken "
-                "model/code correspondence")
+STALE = {"C01", "C02", "C15", "C17"}
+STALE_REASON = ("temporarily not claimed: a shared model file this slice imports (Col26.v / Range.v) was just re-synchronised with the "
+                "hardened code and the slice's bridge lemmas are being re-proved against it; until that is merged the slice's proof "
+                "files do not all compile")
 HOOK_COMMITS = ["6e4993e", "bb5031b", "a67f951", "bdf3a94"]
 if __name__ == "__main__":
     main()
